@@ -59,8 +59,11 @@ type Conn struct {
 	CallLog    []string // last few calls: "step:gid:what"
 
 	// fault plan (set before the run or by environment actions)
-	WriteErrAfter int // fail writes once this many bytes were accepted; <0: never
-	CutAfter      int // the peer's stream ends after this many bytes; <0: never
+	WriteErrAfter int  // fail writes once this many bytes were accepted; <0: never
+	CutAfter      int  // the peer's stream ends after this many bytes; <0: never
+	StopReadAt    int  // the peer process stops reading after this many client bytes (stuck server, black hole); <0: never
+	wbusy         bool // a Write is in progress: like the fd write lock, a second Write waits for it whatever the deadline
+	CloseErr      bool // Close releases the connection but reports an error (tls.Conn does when close_notify cannot be written)
 	CutRST        bool
 	Window        int // >0: Write blocks while more than Window bytes are unconsumed
 	ReadCap       int // >0: the next Read returns at most this many bytes (short read)
@@ -73,7 +76,7 @@ type Conn struct {
 }
 
 func NewConn(s *sched.Sim, id int, p Peer) *Conn {
-	return &Conn{Sim: s, ID: id, Peer: p, wake: make(chan struct{}), WriteErrAfter: -1, CutAfter: -1, Fired: map[string]int{}}
+	return &Conn{Sim: s, ID: id, Peer: p, wake: make(chan struct{}), WriteErrAfter: -1, CutAfter: -1, StopReadAt: -1, Fired: map[string]int{}}
 }
 
 type addr string
@@ -212,6 +215,33 @@ func (c *Conn) Read(p []byte) (int, error) {
 //go:norace
 func (c *Conn) Write(p []byte) (int, error) {
 	c.Sim.Yield("conn.Write")
+	// the fd write lock: concurrent Writes are serialised, and waiting for the
+	// lock is not subject to the write deadline (only closing releases it)
+	for {
+		c.lock()
+		if c.closed {
+			c.unlock()
+			return 0, opErr("write", net.ErrClosed)
+		}
+		if !c.wbusy {
+			c.wbusy = true
+			c.unlock()
+			break
+		}
+		c.Fired["write_lock_wait"]++
+		w := c.wake
+		c.unlock()
+		sched.RaceDisable()
+		<-w
+		sched.RaceEnable()
+		c.Sim.Yield("conn.Write.lockwake")
+	}
+	defer func() {
+		c.lock()
+		c.wbusy = false
+		c.signal()
+		c.unlock()
+	}()
 	for {
 		c.lock()
 		c.call("Write")
@@ -288,6 +318,10 @@ func (c *Conn) Close() error {
 	c.CloseStep = c.Sim.Step
 	c.CloseAt = c.Sim.Now()
 	c.signal()
+	if c.CloseErr {
+		c.Fired["close_err"]++
+		return opErr("close", syscall.EPIPE)
+	}
 	return nil
 }
 
@@ -458,6 +492,9 @@ func (c *Conn) ConsumeTo(n int) {
 	if n > len(c.Out) {
 		n = len(c.Out)
 	}
+	if c.StopReadAt >= 0 && n > c.StopReadAt {
+		n = c.StopReadAt
+	}
 	if n > c.Consumed {
 		c.Consumed = n
 		c.signal()
@@ -471,6 +508,31 @@ func (c *Conn) OutCopy() []byte {
 	c.lock()
 	defer c.unlock()
 	return appendBytes(nil, c.Out)
+}
+
+// PeerView is what the peer process has been able to read of the client's
+// stream: everything, unless the peer stopped reading (StopReadAt).
+//
+//go:norace
+func (c *Conn) PeerView() []byte {
+	c.lock()
+	defer c.unlock()
+	n := len(c.Out)
+	if c.StopReadAt >= 0 && n > c.StopReadAt {
+		n = c.StopReadAt
+	}
+	return appendBytes(nil, c.Out[:n])
+}
+
+//go:norace
+func (c *Conn) PeerViewLen() int {
+	c.lock()
+	defer c.unlock()
+	n := len(c.Out)
+	if c.StopReadAt >= 0 && n > c.StopReadAt {
+		n = c.StopReadAt
+	}
+	return n
 }
 
 //go:norace
